@@ -52,7 +52,7 @@ Inductive msg :=
 | AESnap (t commit : N) (p : snap_part)
 | ApplyCmd (c : cmd) (req : option N)
 | ApplyResp (req : N) (ok : bool) (a b : N)           (* ok: (idx, term); else (error, 0) *)
-| NextIdx (next : N) (reset success : bool).
+| NextIdx (t : N) (next : N) (reset success : bool).
 
 (* ---- outputs of a step ---- *)
 Inductive out :=
